@@ -264,6 +264,9 @@ pub fn render_token(tk: &Value) -> String {
                 "long" => "7".repeat(400),
                 "uni" => "\u{0663}\u{FF15}".to_string(),
                 "longuni" => format!("x{}", "\u{e9}".repeat(40)),
+                // graph elements where the weight text belongs (a reader that tracks open elements sees their end tags only)
+                "childnode" => "<node id=\"n2\"></node>".to_string(),
+                "childedge" => "<edge source=\"n1\" target=\"n2\"></edge>".to_string(),
                 _ => "<v>1</v>".to_string(),
             };
             format!("<data{}>{}</data>", key, body)
